@@ -20,8 +20,14 @@ Bystanders (plan keys with defaults, old replay files keep working):
               clean-up): the monitor follows it like any other event (origin 'byst').
   term2     - a second termination request by the driver at stop_at + dt (circuit.abort(exc),
               abort(CancelledError), a second shutdown() from another task)
-After run_forever() ended no FSM timer may be pending and nothing may fire, whatever happened
-during the clean-up.
+After run_forever() ended (be it by shutdown(), an FSM error or a failed start; observed with
+a done-callback of the simulation task) no FSM timer may be pending and nothing may fire,
+whatever happened during the clean-up. Signatures C04/timer-after-stop, C04/event-after-stop;
+suffix /orphaned-handle when the leftover handle is not the FSM's _active_timer, i.e. the FSM
+has lost track of a timer (finding F25, fixed in /repo 7f2353a: a timed state left while
+calc_output() had not produced an output yet did not cancel its timer; met when a stop_data
+event of the OutputAsync reached such an FSM during the clean-up of a failed start; replay
+known/C04-undef-output-timer-orphaned.json).
 
 Seeded changes (tools/seeded.py, quick tier): C04-s1..s9 detected. s7 (every abort() cancels
 the simulation task again, a second one arriving during the asynchronous clean-up skips the
